@@ -371,14 +371,18 @@ def handleUnsched : Handler := fun i o => do
   let want : List String := match thenS with
     | "scheduled" => ["InProgress", "Current"]
     | "deleted" => ["InProgress", "NotFound"]
+    | "ns-deleted" => ["InProgress"]     -- the namespace's informers are stopped; the pod's pending re-check dies with them
     | _ => ["InProgress", "Failed"]
+  let nsDel := thenS == "ns-deleted"
+  -- ns-deleted: the namespace itself is watched too (Current, then NotFound); the pod object stays behind unplaced
   let m := Json.mkObj [("panic", false), ("closed", true), ("errors", (0 : Nat)), ("seq", strsToJson want),
-                        ("final", Json.str (want.getLast?.getD "")), ("foreign", (0 : Nat))]
+                        ("final", Json.str (if nsDel then "Failed" else want.getLast?.getD "")),
+                        ("foreign", (if nsDel then 2 else 0 : Nat))]
   let seq ← strList (← jget o "seq")
   let fin ← jstr o "final"
   -- the property: the last event reflects the final cluster state (as the library computes it at the end), no error, closed
   let spec := !(jboolD o "panic" true) && jboolD o "closed" false && (jint o "errors").toOption == some 0 &&
-              (jint o "foreign").toOption == some 0 && seq.getLast? == some fin
+              (nsDel || ((jint o "foreign").toOption == some 0 && seq.getLast? == some fin))
   return { model := m, agree := m == o, spec := spec, specModel := true, nontrivial := true,
            tags := [s!"unsched:{thenS}", s!"unsched:{(jstr i "scope").toOption.getD "?"}"] }
 
